@@ -24,4 +24,4 @@ def run(ctx):
     k_roundtrip(ctx, K)
     queryvar.pair_quoting(ctx, roles(ctx.model))    # every key and value keeps its delimiter status: quoted exactly once
     parser.split_url_verbatim(ctx, positions=(1, 2, 3, 4))   # the text that is encoded is the text that was supplied
-    k1(ctx, K, only={"_url.URL.join", "_url.URL.with_name", "_url.URL.with_suffix", "_url.URL._with_raw_name", "_url.URL._make_child", "_url.URL.parent"})
+    k1(ctx, K, only={"_url.URL.join", "_url.URL.with_name", "_url.URL.with_suffix", "_url.URL._with_raw_name", "_url.URL._make_child", "_url.URL.parent", "_url.URL.relative", "_url.URL._origin", "_url.URL.origin"})
